@@ -591,6 +591,22 @@ def outside(ctx):
         for obj, on in ((f, "Field"), (mesh, "Mesh")):
             ctx.expect_raises("C07.outside.region_rejected", lambda: obj[region],
                               unchanged=[obj], what=dict(info, **op, on=on))
+    # the index slices of a region that sticks out by most of a cell or more (below that
+    # region2slices, which works with the centres of the outermost cells, cannot tell and is
+    # not judged)
+    for _ in range(2):
+        lo, hi = gen.rand_box(rng, spec.n)
+        ax = int(rng.integers(0, nd))
+        p1, p2 = spec.vertex(lo), spec.vertex(hi)
+        dist = rng.uniform(0.75, 3) * spec.cell[ax]
+        up = rng.random() < 0.5
+        if up:
+            p2[ax] = spec.pmax[ax] + dist
+        else:
+            p1[ax] = spec.pmin[ax] - dist
+        region = df.Region(p1=p1.tolist(), p2=p2.tolist(), dims=spec.dims)
+        ctx.expect_raises("C07.outside.region_rejected", lambda: mesh.region2slices(region),
+                          what=dict(info, op="region2slices", p1=p1, p2=p2, axis=ax, up=up))
     # unknown names
     ctx.expect_raises("C07.outside.unknown_name_rejected", lambda: f["no_such_subregion"],
                       unchanged=[f], what=dict(info, op="getitem(name)"))
